@@ -144,13 +144,23 @@ class Kernel:
                     self.pivot_var = st.targets[0].slice.id
         if self.pivot_var is None:
             return
+        self.scan_def = None       # expression giving the row index from the loop variable when they differ
         for st, ctx in walk(f.node):
             if isinstance(st, ast.Assign) and isinstance(st.targets[0], ast.Name) and st.targets[0].id == self.pivot_var \
                     and isinstance(st.value, ast.Name) and ctx.loops:
                 lp = ctx.loops[-1]
-                if isinstance(lp, ast.For) and isinstance(lp.target, ast.Name) and lp.target.id == st.value.id:
+                if not (isinstance(lp, ast.For) and isinstance(lp.target, ast.Name)):
+                    continue
+                if lp.target.id == st.value.id:
                     self.pivot_stmt, self.pivot_ctx = st, ctx
                     self.row_loop, self.jvar = lp, lp.target.id
+                else:
+                    # j = f(loop variable) defined at the top of the loop body
+                    for s2 in lp.body:
+                        if isinstance(s2, ast.Assign) and isinstance(s2.targets[0], ast.Name) and s2.targets[0].id == st.value.id:
+                            self.pivot_stmt, self.pivot_ctx = st, ctx
+                            self.row_loop, self.jvar = lp, st.value.id
+                            self.scan_def = (lp.target.id, s2.value)
 
 
 def _find_flags(self):
@@ -620,3 +630,46 @@ def check_flag_resets(run, f, rule='R9.reset'):
                       '`%s` is latched inside an inner loop while one item of the loop over `%s` is processed and read in that loop, but it is not '
                       'reset at the start of every iteration: the value left by one observable leaks into the next' % (v, norm(L.target)))
     return n
+
+
+def scan_sequence(k, N, r):
+    """Row indices in the order the row loop visits them."""
+    lp = k.row_loop
+    if not (isinstance(lp.iter, ast.Call) and norm(lp.iter.func) == 'range' and len(lp.iter.args) == 1):
+        raise Undecidable('row loop is not range(...)')
+    n = ev(lp.iter.args[0], {'N': N, 'r': r, 'Ng': 2 * N})
+    if k.scan_def is None:
+        return list(range(n))
+    var, expr = k.scan_def
+    return [ev(expr, {var: t, 'N': N, 'r': r, 'Ng': 2 * N}) for t in range(n)]
+
+
+def check_priority(run, f, k, rule='R9.priority'):
+    """The pivot is the FIRST anticommuting row in scan order.  An observable that anticommutes with an active stabilizer is
+    undetermined and must replace it without changing the rank, so active stabilizers must be scanned before standby rows;
+    active destabilizers (which only select the deterministic sign) must come last."""
+    if k is None or k.row_loop is None:
+        run.undecided(rule, f, f.name, 'row loop not found')
+        return
+    try:
+        for N in (1, 2, 3, 4):
+            for r in range(0, N + 1):
+                seq = scan_sequence(k, N, r)
+                if sorted(seq) != list(range(2 * N)):
+                    run.violation(rule, f, k.row_loop.iter, 'the row scan does not visit every tableau row exactly once for N=%d r=%d: %s' % (N, r, seq))
+                    return
+                cls = []
+                for j in seq:
+                    cls.append(next(c for c in CLASSES if j in rows_of(c, N, r)))
+                rank = {'AS': 0, 'SS': 1, 'SD': 1, 'AD': 2}
+                order = [rank[c] for c in cls]
+                if order != sorted(order):
+                    first_bad = next(i for i in range(1, len(order)) if order[i] < order[i - 1])
+                    run.violation(rule, f, k.pivot_stmt, 'for N=%d r=%d the scan visits a %s row (row %d) before the %s row %d: the first anticommuting row becomes the '
+                                  'pivot, so an observable that anticommutes with an active stabilizer and with a standby row lowers the rank instead of '
+                                  'replacing the active stabilizer' % (N, r, cls[first_bad - 1], seq[first_bad - 1], cls[first_bad], seq[first_bad]))
+                    return
+    except Undecidable as e:
+        run.undecided(rule, f, k.row_loop.iter, str(e))
+        return
+    run.ok(rule, f, k.pivot_stmt, 'scan order: active stabilizers, then standby rows, then active destabilizers (all N<=4, r)')
